@@ -4,7 +4,7 @@
 For each: scratch copy of /repo HEAD under /tmp -> demo must PASS; apply patch -> repository tests must still
 pass, demo must FAIL, then every check named in meta.json["checks"] (default: the property's own check) is run
 against the patched copy (quick tier unless --tier thorough).  /repo itself is never modified.
-  tools/seeded.py [--tier quick|thorough] [--import DIR ID] [ids...]
+  tools/seeded.py [--tier quick|thorough] [--seed N] [ids or id fragments...]
 """
 import glob, json, os, shutil, subprocess, sys, tempfile, time
 from concurrent.futures import ThreadPoolExecutor
@@ -13,6 +13,9 @@ args = sys.argv[1:]
 tier = "quick"
 if "--tier" in args:
     i = args.index("--tier"); tier = args[i + 1]; del args[i:i + 2]
+seed = "1"
+if "--seed" in args:
+    i = args.index("--seed"); seed = args[i + 1]; del args[i:i + 2]
 only = set(args)
 
 
@@ -46,7 +49,7 @@ def evaluate(d):
         t0 = time.time()
         res = []
         for c in checks:
-            r = sh(["./check", c, "--tier", tier], env=dict(os.environ, VERIF_REPO=tmp, VERIF_NPROC="8"), cwd="/verif")
+            r = sh(["./check", c, "--tier", tier], env=dict(os.environ, VERIF_REPO=tmp, VERIF_NPROC="8", VERIF_SEED=seed), cwd="/verif")
             v = "CAUGHT" if r.returncode == 1 else "missed" if r.returncode == 0 else f"ERR{r.returncode}"
             res.append(f"{c}={v}")
         return (sid, tests, demo_s, " ".join(res), time.time() - t0)
